@@ -118,9 +118,13 @@ def _toCSSname(DOMname):
 # used for CSSStyleDeclaration to check if allowed properties
 # but somehow doubled, any better way?
 CSS2Properties._properties = []
+# CSSname each DOMname was derived from (``_toCSSname`` cannot invert names
+# like 'overflowX')
+_CSSnames = {}
 for group in cssutils.profiles.properties:
     for name in cssutils.profiles.properties[group]:
         CSS2Properties._properties.append(_toDOMname(name))
+        _CSSnames[_toDOMname(name)] = name
 
 
 # add CSS2Properties to CSSStyleDeclaration:
@@ -129,7 +133,7 @@ def __named_property_def(DOMname):
     Closure to keep name known in each properties accessor function
     DOMname is converted to CSSname here, so actual calls use CSSname.
     """
-    CSSname = _toCSSname(DOMname)
+    CSSname = _CSSnames.get(DOMname, _toCSSname(DOMname))
 
     def _get(self):
         return self._getP(CSSname)
